@@ -202,8 +202,8 @@ fn opts_for(spec: &Spec, faults: bool) -> Opts {
     }
 }
 
-fn outcome_by_id(cfg: &Cfg, t: &Terminal) -> (BTreeMap<String, Disp>, Hist) {
-    ((0..cfg.graph.n()).map(|j| (cfg.graph.jobs[j].id.clone(), t.disp[j].clone())).collect(), t.hist.clone())
+fn outcome_by_id(cfg: &Cfg, t: &Terminal) -> (BTreeMap<String, (Disp, bool)>, Hist) {
+    ((0..cfg.graph.n()).map(|j| (cfg.graph.jobs[j].id.clone(), (t.disp[j].clone(), t.offered[j]))).collect(), t.hist.clone())
 }
 
 fn permutations(n: usize) -> Vec<Vec<usize>> {
@@ -325,7 +325,7 @@ pub fn analyze(cfg: &Cfg, spec: &Spec, faults: bool) -> Result<ConfigResult, Mac
 fn declaration_orders(
     cfg: &Rc<Cfg>,
     spec: &Spec,
-    base: &BTreeSet<(BTreeMap<String, Disp>, Hist)>,
+    base: &BTreeSet<(BTreeMap<String, (Disp, bool)>, Hist)>,
     ff_opts: &Opts,
     res: &mut ConfigResult,
 ) -> Result<(), MachineryError> {
@@ -498,7 +498,7 @@ fn followups(cfg: &Rc<Cfg>, spec: &Spec, ex: &Explored, res: &mut ConfigResult) 
                             );
                         }
                     }
-                    if !hist_equiv(&c2, &t2.hist, &t.hist) {
+                    if !hist_equiv(&c2, &t.hist, &t2.hist) {
                         push("C12", "history-changed", format!("history changed by no-op re-evaluation: {:?} -> {:?}", t.hist, t2.hist), vec![], ev2);
                     }
                 }
@@ -551,7 +551,7 @@ fn followups(cfg: &Rc<Cfg>, spec: &Spec, ex: &Explored, res: &mut ConfigResult) 
                         if t2.disk != t0.disk {
                             push("C09", "resume-outputs-differ", format!("resumed outputs {:?} differ from uninterrupted {:?}", t2.disk, t0.disk), vec![], ev2);
                         }
-                        if !hist_equiv(&c2, &t2.hist, &t0.hist) {
+                        if !hist_equiv(&c2, &t0.hist, &t2.hist) {
                             push(
                                 "C09",
                                 "resume-history-differs",
